@@ -177,21 +177,23 @@ theorem readTail_ok (b : Bytes) (i id : Nat) (eh : Bytes) (bl : Nat) (blr : Byte
     (h : readTail b i id = .ok (eh, bl, blr)) : bl < id := by
   unfold readTail at h
   split at h
-  · cases h
+  · cases h            -- `len(b) < i+sha256.Size+txIDSize+sha256.Size`: ErrCorruptedData
   · split at h
     · cases h
     · split at h
       · cases h
       · split at h
         · cases h
-        · rename_i hlt
-          split at h
+        · split at h
           · cases h
-          · injection h with h
-            simp only [Prod.mk.injEq] at h
-            obtain ⟨_, h2, _⟩ := h
-            subst h2
-            omega
+          · rename_i hlt
+            split at h
+            · cases h
+            · injection h with h
+              simp only [Prod.mk.injEq] at h
+              obtain ⟨_, h2, _⟩ := h
+              subst h2
+              omega
 
 /-- What `TxHeader.ReadFrom` guarantees about the header it returns. -/
 theorem hdrReadFrom_ok (b : Bytes) (hd : TxHdr) (h : hdrReadFrom b = .ok hd) :
